@@ -465,8 +465,8 @@ class Session:
             return
         if kind == "pong":
             self.stats["ws_pong"] += 1
-            if not c.ledger:
-                return
+            if not c.ledger or not c.healthy or not c.track_input:
+                return      # pongs for frames that garbage happened to form are not judged
             if c.pings and c.pings[0] == payload:
                 c.pings.popleft()
             else:
